@@ -33,6 +33,17 @@ def main():
     if hits:
         verdict.violation({"clause": "source-audit"}, {"what": "forbidden construct in Lean sources", "hits": hits}, False)
     proof_broken = not audit["ok"]
+    # thorough tier: the compiled proof modules are re-checked by Lean's independent checker (replays every declaration
+    # of the .olean files through the kernel)
+    lc = None
+    if tier == "thorough" and not audit.get("build_failed"):
+        mods = ["HidiProofs.Props." + m for m in prop_modules(prop)]
+        rc_lc, o_lc = run(["lake", "env", "leanchecker"] + mods, cwd=LEAN, timeout=3600)
+        lc = {"modules": mods, "ok": rc_lc == 0, "log": o_lc[-600:]}
+        if rc_lc != 0:
+            proof_broken = True
+            audit.setdefault("log", "")
+            audit["log"] += "\nleanchecker: " + o_lc[-2000:]
 
     # 2. correspondence + monitors
     cov = {}
@@ -61,6 +72,8 @@ def main():
         "trusted_base": TRUSTED_BASE + cov.pop("trusted_extra", []),
         "theorems": audit["theorems"],
     })
+    if lc is not None:
+        cov["leanchecker"] = lc
     rc = verdict.finish()
     write_evidence(prop, tier, seed, cov, cov.pop("assumptions", []), time.time() - t0, len(verdict.violations),
                    {"known_findings_reported": verdict.known})
